@@ -316,6 +316,35 @@ fn case_conv(target: &str, rng: &mut Rng) -> Option<(String, String, String, usi
             if !same_ctx(&ctx, &rctx) { return Some((input, format!("context of length {}", ctx.len()), "context unchanged".to_owned(), weight)); }
             if got != want { return Some((input, reference::show(&got), reference::show(&want), weight)); }
         }
+        "coherence" => {
+            // C06, first sentence, on the REAL code (bounded; the proof of this sentence rests on the assumed confluence axiom):
+            // a closed term on which the reference evaluation reaches a value within the fuel is evaluated and normalised by the
+            // real functions; if both results are ground (an integer literal or a truth value) they must be the same
+            // close the term: every free variable becomes a literal
+            fn close(t: &R, c: usize) -> R {
+                match t {
+                    R::Var(i) => if *i >= c { R::Node(K::Lit(BigInt::from((*i - c) as i64 - 1)), vec![]) } else { t.clone() },
+                    R::Node(k, kids) => R::Node(k.clone(), kids.iter().enumerate().map(|(i, x)| close(x, c + reference::binds(k, kids.len(), i))).collect()),
+                }
+            }
+            let t = close(&t, 0);
+            let real_t = from_r(&t);
+            let tag = "";
+            let mut cur = t.clone();
+            let mut n = 0;
+            while let Some(next) = reference::r_step(&cur) { cur = next; n += 1; if n > 200 || size(&cur) > 2000 { return None; } }
+            let mut fuel = 2000u32;
+            reference::r_whnf(&t, &Vec::new(), &mut fuel)?;
+            let input = format!("evaluate / normalize_weak_head({}) in the empty context{tag}", reference::show(&t));
+            trace(&input);
+            let ground = |r: &R| matches!(r, R::Node(K::Lit(_) | K::True | K::False, _));
+            let ev = evaluator::evaluate(&real_t).ok().map(|v| to_r(&v));
+            let mut ctx = Vec::new();
+            let nw = to_r(&normalizer::normalize_weak_head(&real_t, &mut ctx));
+            if let Some(v) = &ev { if ground(v) && ground(&nw) && *v != nw { return Some((input, format!("evaluate: {}, normalize_weak_head: {}", reference::show(v), reference::show(&nw)), "the same ground result".to_owned(), size(&t))); } }
+            // a closed term whose evaluation ends in a ground value must also normalise to a ground term (the same one)
+            if let Some(v) = &ev { if ground(v) && !ground(&nw) { return Some((input, format!("evaluate: {}, normalize_weak_head: {}", reference::show(v), reference::show(&nw)), "normalisation of a term that evaluates to a literal yields that literal".to_owned(), size(&t))); } }
+        }
         "syntactically_equal" => {
             let t2 = if rng.below(4) == 0 { gen_term(rng, depth, 2) } else { perturb(&t, rng) };
             let real_t2 = from_r(&t2);
@@ -634,7 +663,7 @@ fn main() {
         let t = target.clone();
         let r = panic::catch_unwind(panic::AssertUnwindSafe(|| {
             let mut local = Rng(snapshot.0);
-            let out = if t == "resolve" { case_resolve(&mut local) } else if t == "pipeline" { case_pipeline(grammar.as_ref().unwrap(), &mut local) } else if t.starts_with("packrat") { case_packrat(grammar.as_ref().unwrap(), &mut local, t == "packrat_complete") } else if t.starts_with("reassociate") { case_parser(&t, &mut local) } else if t == "normalize_weak_head" || t == "syntactically_equal" || t == "unify" { case_conv(&t, &mut local) } else { case(&t, &mut local) };
+            let out = if t == "resolve" { case_resolve(&mut local) } else if t == "pipeline" { case_pipeline(grammar.as_ref().unwrap(), &mut local) } else if t.starts_with("packrat") { case_packrat(grammar.as_ref().unwrap(), &mut local, t == "packrat_complete") } else if t.starts_with("reassociate") { case_parser(&t, &mut local) } else if t == "normalize_weak_head" || t == "syntactically_equal" || t == "unify" || t == "coherence" { case_conv(&t, &mut local) } else { case(&t, &mut local) };
             (out, local.0)
         }));
         match r {
